@@ -574,7 +574,8 @@ func childMain(specPath, outPath string) {
 		}
 		g := settle()
 		f, l := fdCounts()
-		ob.Gor, ob.Lis, ob.Fds = g-g0+ob.perturbGor*(i+1), l-l0-bkListeners(), f-f0-heldCount()-bkDescriptors()
+		kept := ob.Lis // tftp-upload: uploads still on record (0 for every other scenario)
+		ob.Gor, ob.Lis, ob.Fds = g-g0+ob.perturbGor*(i+1), l-l0-bkListeners()+kept, f-f0-heldCount()-bkDescriptors()
 		res.Conns = append(res.Conns, ob)
 	}
 	if os.Getenv("C09_DEBUG") != "" {
